@@ -72,7 +72,10 @@ class Device:
         w.events.append(('dev-got', cmd.decode(), w.sched.now))
         if cmd.startswith(b'W') or cmd == b'M2' and w.no_reply_for_m2:
             return          # write-only commands are not answered by this device
-        answer = ANSWERS[w.sched.choose(w.nanswers, f'dev:{cmd.decode()}')] if w.window else 'now'
+        if cmd.decode() in w.scripted:      # the case fixes this command's fate: no deviation spent on it
+            answer = w.scripted[cmd.decode()] if w.window else 'now'
+        else:
+            answer = ANSWERS[w.sched.choose(w.nanswers, f'dev:{cmd.decode()}')] if w.window else 'now'
         w.answers.append((cmd.decode(), answer))
         rep = b'R:' + cmd + w.eol
 
@@ -112,6 +115,7 @@ class World:
         self.nconn = 0
         self.eol = b'\n'
         self.no_reply_for_m2 = False
+        self.scripted = {}
 
 
 def make_node(kind, wait_before=0, eol=None):
@@ -166,6 +170,7 @@ def execute(case, prefix):
     fakesock.set_net(net)
     world = World(sched, case['nanswers'])
     world.no_reply_for_m2 = case['name'].startswith('three')
+    world.scripted = dict(case.get('scripted') or {})
     net.listen('dev', 5000, lambda: Device(world))
     out = {'results': [[] for _ in case['threads']], 'callbacks': 0}
 
